@@ -3,17 +3,19 @@ import TTV.Model.AsyncRun
 import TTV.Spec.C14
 /-! Driver glue for C14: codecs between S-expressions and `AsyncRun.Prog` / `AsyncRun.Trace`.
 
-Input : `(timeout (stop …) broken suppress store nObs setUp body tearDown)`,
-        main stage = `((stage …) stage)` (the cleanups it registers, then itself), stage = `((side …) beh)`,
+Input : `(timeout (stop …) broken suppress store nObs setUp body tearDown [real])`,
+        stage = `((stage …) (side …) beh)` (the cleanups it registers at its start, its side effects, its behaviour),
         side = `(junk d)` | `logerr` | `dropfailed` | `flush` | `expect`,
-        beh = `ret` | `(raise k)` | `(fire d)` | `(faild d k)` | `never`, k = `err` | `fail` | `skip`
-Trace : `((ev …) stopRequested raised ((name t observers) …) leftover pending obsRestored realStops finalTime)`,
+        beh = `ret` | `(raise k)` | `(fire d)` | `(faild d k)` | `never`, k = `err` | `fail` | `skip` | `ki` | `exit`
+Trace : `((ev …) stopRequested raised ((name t observers) …) (live …) leftover pending obsRestored realStops finalTime)`,
         name = `setUp` | `body` | `tearDown` | `(cleanup i)`, ev = `startTest` | `success` | `error` | `failure` | `skip` | `stopTest` -/
 namespace TTV.Drv.C14
 open TTV TTV.Sexp TTV.AsyncRun
 
 def exc? : Sexp → Option Exc
-  | .atom "err" => some .err | .atom "fail" => some .fail | .atom "skip" => some .skip | _ => none
+  | .atom "err" => some .err | .atom "fail" => some .fail | .atom "skip" => some .skip
+  | .atom "ki" => some .ki | .atom "exit" => some .ki      -- KeyboardInterrupt / SystemExit: the same for the runner
+  | _ => none
 
 def beh? : Sexp → Option Beh
   | .atom "ret" => some .ret
@@ -31,18 +33,20 @@ def side? : Sexp → Option Side
   | .atom "expect" => some .expect
   | _ => none
 
-def stage? : Sexp → Option Stage
-  | .list [sides, b] => do some { sides := ← list? side? sides, beh := ← beh? b }
-  | _ => none
+/-- stage = `((cleanup stage …) (side …) beh)`, cleanups nested at most `fuel` deep -/
+def stageF : Nat → Sexp → Option Stage
+  | 0, _ => none
+  | n + 1, .list [.list cs, sides, b] => do some (.mk (← cs.mapM (stageF n)) (← list? side? sides) (← beh? b))
+  | _ + 1, _ => none
 
-def mstage? : Sexp → Option MStage
-  | .list [cs, s] => do some { cleanups := ← list? stage? cs, stage := ← stage? s }
-  | _ => none
+def stage? (s : Sexp) : Option Stage := stageF 64 s
 
+/-- an optional last element says on which reactor the harness ran the program (`real`); the model is the same -/
 def input? : Sexp → Option Prog
-  | .list [t, stops, br, su, st, n, a, b, c] => do
+  | .list (t :: stops :: br :: su :: st :: n :: a :: b :: c :: rest) => do
+      if rest.length > 1 then none
       some { timeout := ← nat? t, stops := ← list? nat? stops, broken := ← bool? br, suppress := ← bool? su,
-             store := ← bool? st, nObs := ← nat? n, setUp := ← mstage? a, body := ← mstage? b, tearDown := ← mstage? c }
+             store := ← bool? st, nObs := ← nat? n, setUp := ← stage? a, body := ← stage? b, tearDown := ← stage? c }
   | _ => none
 
 def ev? : Sexp → Option Ev
@@ -67,13 +71,14 @@ def logEntry? : Sexp → Option (SName × Nat × Nat)
 def ofLogEntry (e : SName × Nat × Nat) : Sexp := .list [ofSName e.1, ofNat e.2.1, ofNat e.2.2]
 
 def trace? : Sexp → Option Trace
-  | .list [evs, sr, ra, st, lo, pe, ob, rs, ft] => do
+  | .list [evs, sr, ra, st, lv, lo, pe, ob, rs, ft] => do
       some { events := ← list? ev? evs, stopRequested := ← bool? sr, raised := ← bool? ra, stages := ← list? logEntry? st,
-             leftover := ← nat? lo, pending := ← nat? pe, obsRestored := ← bool? ob, realStops := ← nat? rs,
+             live := ← list? bool? lv, leftover := ← nat? lo, pending := ← nat? pe, obsRestored := ← bool? ob, realStops := ← nat? rs,
              finalTime := ← nat? ft }
   | _ => none
 def ofTrace (t : Trace) : Sexp :=
-  .list [ofList ofEv t.events, ofBool t.stopRequested, ofBool t.raised, ofList ofLogEntry t.stages, ofNat t.leftover,
+  .list [ofList ofEv t.events, ofBool t.stopRequested, ofBool t.raised, ofList ofLogEntry t.stages, ofList ofBool t.live,
+         ofNat t.leftover,
          ofNat t.pending, ofBool t.obsRestored, ofNat t.realStops, ofNat t.finalTime]
 
 def drv : PropDrv Prog Trace :=
